@@ -37,3 +37,86 @@ def zz_param(eng, st, fr, args, ins):
 
 def install(eng):
     eng.intrinsics.update(REG)
+
+
+# ------------------------------------------------------------------------------------ reflection over *types* only
+RKIND = {"bool": 1, "int": 2, "int8": 3, "int16": 4, "int32": 5, "int64": 6, "uint": 7, "uint8": 8, "uint16": 9, "uint32": 10,
+         "uint64": 11, "uintptr": 12, "float32": 13, "float64": 14, "string": 24}
+RKIND_K = {"array": 17, "chan": 18, "func": 19, "iface": 20, "map": 21, "ptr": 22, "slice": 23, "struct": 25}
+
+
+def _rtype(tid):
+    return Iface("*reflect.rtype", ("rtype", tid))
+
+
+@intr("reflect.TypeOf")
+def reflect_typeof(eng, st, fr, args, ins):
+    x = args[0]
+    if x is None:
+        return None
+    return _rtype(x.tid)
+
+
+@intr("(*reflect.rtype).NumField")
+def rtype_numfield(eng, st, fr, args, ins):
+    u = eng.ir.under(args[0][1])
+    if u["k"] != "struct":
+        raise GoPanic("reflect: NumField of non-struct type")
+    return len(u["fields"])
+
+
+@intr("(*reflect.rtype).Kind")
+def rtype_kind(eng, st, fr, args, ins):
+    u = eng.ir.under(args[0][1])
+    if u["k"] == "basic":
+        return RKIND.get(u["name"], 0)
+    return RKIND_K.get(u["k"], 0)
+
+
+@intr("(*reflect.rtype).Name", "(*reflect.rtype).String")
+def rtype_name(eng, st, fr, args, ins):
+    return args[0][1].split("/")[-1]
+
+
+@intr("(*reflect.rtype).Field")
+def rtype_field(eng, st, fr, args, ins):
+    u = eng.ir.under(args[0][1])
+    i = args[1]
+    f = u["fields"][i]
+    sf = eng.ir.under("reflect.StructField")
+    out = []
+    for fld in sf["fields"]:
+        n = fld["name"]
+        if n == "Name":
+            out.append(f["name"])
+        elif n == "Tag":
+            out.append(f["tag"])
+        elif n == "Type":
+            out.append(_rtype(f["t"]))
+        elif n == "Anonymous":
+            out.append(bool(f["emb"]))
+        elif n == "PkgPath":
+            out.append("" if f["exp"] else "pkg")
+        else:
+            out.append(eng.zero(fld["t"]))
+    return tuple(out)
+
+
+@intr("(reflect.StructTag).Get")
+def structtag_get(eng, st, fr, args, ins):
+    import re
+    tag, key = args
+    for m in re.finditer(r'(\w+):"((?:[^"\\]|\\.)*)"', tag):
+        if m.group(1) == key:
+            return m.group(2)
+    return ""
+
+
+@intr("(reflect.StructTag).Lookup")
+def structtag_lookup(eng, st, fr, args, ins):
+    import re
+    tag, key = args
+    for m in re.finditer(r'(\w+):"((?:[^"\\]|\\.)*)"', tag):
+        if m.group(1) == key:
+            return (m.group(2), True)
+    return ("", False)
